@@ -1,1 +1,819 @@
-//! harness crate vh_file
+//! C10 / C11: replay the behaviours TLC generated from spec/FileWorker.tla on the REAL
+//! `emit_file` worker (through the cfg-guarded `emit_file::verif` hook) over an in-memory,
+//! fault-injecting, crashable filesystem.
+//!
+//! Input (ndjson, one REPLAY line per case):
+//!   {"maxFiles":m,"maxSize":s,"reuse":b,
+//!    "hist":[{"op":"batch","evs":[e..],"ph":bytes,"p":period,"ms":counter,
+//!             "calls":[[op,name,token,result]..],"res":"ok|retry|noretry|crash","rest":[e..]}
+//!            | {"op":"crash","c":[{"n":name,"k":kept,"t":torn,"v":vanish}..]}
+//!            | {"op":"restart"}],
+//!    "files":[{"n":name,"syn":[tok..],"uns":[tok..],"ent":b}..],"acked":[e..]}
+//!
+//! Every case is run under several lexical configurations (prefix, extension, roll period,
+//! foreign files sharing the directory).  The outcome of the i-th filesystem call is the
+//! one the specification chose for its i-th call, whatever call the code makes; the calls
+//! the code makes, what on_batch returns and the final directory are compared with the
+//! specification's prediction.  A run that differs is not judged here: its recorded trace
+//! is written out and decided by TLC at level A (spec/FileSetTrace.tla).
+//!
+//! Names and bytes are projected to the integers of the specification: see `Lex`.
+use std::collections::{BTreeMap, HashMap};
+use std::io;
+use std::path::{Path, PathBuf};
+use std::sync::{Arc, Mutex};
+
+use emit_file::verif::{VerifBatch, VerifFile, VerifFilesystem, VerifOutcome, VerifRollBy, VerifWorker};
+use vh_common::*;
+
+pub const NONE: i64 = -100;
+pub const UNKNOWN: i64 = -50;
+pub const GARBAGE: i64 = 99;
+
+/// event sizes, as MC_EvSize in spec/MCFileWorker.tla
+pub const EV_SIZE: [usize; 8] = [3, 4, 3, 4, 3, 4, 3, 4];
+
+/// The complete bytes of event e (1-based): a letter repeated, then the separator.
+pub fn ev_bytes(e: i64) -> Vec<u8> {
+    let n = EV_SIZE[(e - 1) as usize];
+    let mut v = vec![b'a' + (e - 1) as u8; n - 1];
+    v.push(b'\n');
+    v
+}
+
+/// Project bytes to tokens: complete event / separator / torn prefix (one token per
+/// stray payload byte) / garbage.
+pub fn tokens_of(mut b: &[u8]) -> Vec<i64> {
+    let mut out = Vec::new();
+    'outer: while !b.is_empty() {
+        for e in 1..=EV_SIZE.len() as i64 {
+            let eb = ev_bytes(e);
+            if b.starts_with(&eb) {
+                out.push(e);
+                b = &b[eb.len()..];
+                continue 'outer;
+            }
+        }
+        let c = b[0];
+        if c == b'\n' {
+            out.push(0);
+        } else if c >= b'a' && c < b'a' + EV_SIZE.len() as u8 {
+            out.push(-((c - b'a') as i64 + 1));
+        } else {
+            out.push(GARBAGE);
+        }
+        b = &b[1..];
+    }
+    out
+}
+
+/// The token a write buffer stands for.
+pub fn token_of_buf(b: &[u8]) -> i64 {
+    if b == b"\n" {
+        return 0;
+    }
+    for e in 1..=EV_SIZE.len() as i64 {
+        if b == &ev_bytes(e)[..] {
+            return e;
+        }
+    }
+    GARBAGE
+}
+
+/// A lexical configuration: how abstract names are spelled.
+#[derive(Clone)]
+pub struct Lex {
+    pub label: &'static str,
+    pub dir: &'static str,
+    pub prefix: &'static str,
+    pub ext: &'static str,
+    pub roll: VerifRollBy,
+    /// unix seconds of the start of period 1
+    pub base: u64,
+    /// seconds per period
+    pub unit: u64,
+    /// texts of periods 1..=5
+    pub periods: [&'static str; 5],
+    /// milliseconds into the period for counter index 0..=2 (numeric order = index order,
+    /// the order of the unpadded decimal texts is different)
+    pub millis: [u64; 3],
+    /// other files sharing the directory (never members of this set)
+    pub foreign: Vec<String>,
+}
+
+pub fn lexes() -> Vec<Lex> {
+    vec![
+        Lex {
+            label: "test.log/minute",
+            dir: "logs",
+            prefix: "test",
+            ext: "log",
+            roll: VerifRollBy::Minute,
+            base: 946684680,
+            unit: 60,
+            periods: ["1999-12-31-23-58", "1999-12-31-23-59", "2000-01-01-00-00", "2000-01-01-00-01", "2000-01-01-00-02"],
+            millis: [0, 9, 10],
+            foreign: vec![],
+        },
+        Lex {
+            label: "app.log/hour+siblings",
+            dir: "var/log",
+            prefix: "app",
+            ext: "log",
+            roll: VerifRollBy::Hour,
+            base: 946677600,
+            unit: 3600,
+            periods: ["1999-12-31-22", "1999-12-31-23", "2000-01-01-00", "2000-01-01-01", "2000-01-01-02"],
+            millis: [0, 9, 3_599_999],
+            foreign: vec![
+                // a set whose prefix extends ours; sorts after all of ours
+                "app2.1999-12-31-22.00000000.0a000000.log".into(),
+                // prefix.other...: sorts after ours of the same period
+                "app.other.1999-12-31-22.00000000.0a000000.log".into(),
+                // a set whose prefix ours extends
+                "ap.1999-12-31-22.00000000.0a000000.log".into(),
+                // sorts before all of ours: the first candidate for retention
+                "app.0000-catalog".into(),
+                "app.log".into(),
+                "unrelated.txt".into(),
+            ],
+        },
+        Lex {
+            label: "my.app.txt/day+siblings",
+            dir: "d",
+            prefix: "my.app",
+            ext: "txt",
+            roll: VerifRollBy::Day,
+            base: 946512000,
+            unit: 86400,
+            periods: ["1999-12-30", "1999-12-31", "2000-01-01", "2000-01-02", "2000-01-03"],
+            millis: [5, 10, 86_399_999],
+            foreign: vec![
+                "my.app2.1999-12-30.00000005.0a000000.txt".into(),
+                "my.1999-12-30.00000005.0a000000.txt".into(),
+                "my.app.1999-12-30.txt".into(),
+                "my.app.0.0.0.0.txt".into(),
+            ],
+        },
+    ]
+}
+
+fn id_of_rid(rid: i64) -> u32 {
+    0x0a00_0000 + (rid as u32) * 0x111
+}
+
+impl Lex {
+    pub fn name_text(&self, n: i64) -> String {
+        if n < 0 {
+            let i = (-n - 1) as usize;
+            return self.foreign.get(i).cloned().unwrap_or_else(|| format!("?{n}"));
+        }
+        let (p, ms, rid) = (n / 100, (n / 10) % 10, n % 10);
+        format!(
+            "{}.{}.{:08}.{:08x}.{}",
+            self.prefix,
+            self.periods[(p - 1) as usize],
+            self.millis[ms as usize],
+            id_of_rid(rid),
+            self.ext
+        )
+    }
+
+    fn table(&self) -> HashMap<String, i64> {
+        let mut t = HashMap::new();
+        for p in 1..=5i64 {
+            for ms in 0..3i64 {
+                for rid in 0..10i64 {
+                    let n = p * 100 + ms * 10 + rid;
+                    t.insert(self.name_text(n), n);
+                }
+            }
+        }
+        for (i, f) in self.foreign.iter().enumerate() {
+            t.insert(f.clone(), -(i as i64) - 1);
+        }
+        t
+    }
+
+    fn unix_millis(&self, p: i64, ms: i64) -> u64 {
+        (self.base + (p as u64 - 1) * self.unit) * 1000 + self.millis[ms as usize]
+    }
+}
+
+// ------------------------------------------------------------------------------------------
+// the filesystem
+
+#[derive(Default, Clone)]
+struct MemFile {
+    synced: Vec<u8>,
+    /// one chunk per successful (or short) write call
+    unsynced: Vec<Vec<u8>>,
+    entry_synced: bool,
+}
+
+struct CrashSignal;
+
+#[derive(Default)]
+struct FsState {
+    files: BTreeMap<String, MemFile>,
+    /// outcome for the i-th call of the running on_batch
+    script: Vec<String>,
+    /// panic with CrashSignal when this many calls were made
+    crash_at: Option<usize>,
+    ncalls: usize,
+    /// (op, name, token, result) of the running on_batch
+    log: Vec<(String, i64, i64, String)>,
+    /// the next write fails (second half of a short write)
+    pending_err: bool,
+    crashed: bool,
+    names: HashMap<String, i64>,
+    dir: String,
+}
+
+impl FsState {
+    fn name_of(&self, path: &Path) -> (i64, String) {
+        let s = path.to_str().unwrap_or("").replace('\\', "/");
+        let file = match s.strip_prefix(&format!("{}/", self.dir)) {
+            Some(f) => f.to_string(),
+            None => return (UNKNOWN, s),
+        };
+        (self.names.get(&file).copied().unwrap_or(UNKNOWN), file)
+    }
+
+    /// The scripted outcome of the next call; crashes the "process" at the crash point.
+    fn outcome(&mut self) -> String {
+        if let Some(k) = self.crash_at {
+            if self.ncalls >= k {
+                self.crashed = true;
+                std::panic::panic_any(CrashSignal);
+            }
+        }
+        let o = self.script.get(self.ncalls).cloned().unwrap_or_else(|| "ok".to_string());
+        self.ncalls += 1;
+        o
+    }
+}
+
+fn ioerr(kind: io::ErrorKind, msg: &str) -> io::Error {
+    io::Error::new(kind, msg.to_string())
+}
+
+#[derive(Clone)]
+pub struct MemFs(Arc<Mutex<FsState>>);
+
+struct MemHandle {
+    fs: Arc<Mutex<FsState>>,
+    file: String,
+    n: i64,
+}
+
+fn lock(m: &Arc<Mutex<FsState>>) -> std::sync::MutexGuard<'_, FsState> {
+    m.lock().unwrap_or_else(|e| e.into_inner())
+}
+
+impl VerifFilesystem for MemFs {
+    fn create_dir_all(&self, _path: &Path) -> io::Result<()> {
+        let mut s = lock(&self.0);
+        let o = s.outcome();
+        let res = if o == "ok" { "ok" } else { "err" };
+        s.log.push(("mkdir".into(), NONE, 0, res.into()));
+        if res == "ok" { Ok(()) } else { Err(ioerr(io::ErrorKind::Other, "injected")) }
+    }
+
+    fn sync_parent(&self, _path: &Path) -> io::Result<()> {
+        let mut s = lock(&self.0);
+        let o = s.outcome();
+        let res = if o == "ok" { "ok" } else { "err" };
+        s.log.push(("syncdir".into(), NONE, 0, res.into()));
+        if res == "ok" {
+            for f in s.files.values_mut() {
+                f.entry_synced = true;
+            }
+            Ok(())
+        } else {
+            Err(ioerr(io::ErrorKind::Other, "injected"))
+        }
+    }
+
+    fn read_dir_files(&self, _path: &Path) -> io::Result<Vec<PathBuf>> {
+        let mut s = lock(&self.0);
+        let o = s.outcome();
+        let res = if o == "ok" { "ok" } else { "err" };
+        s.log.push(("list".into(), NONE, 0, res.into()));
+        if res == "ok" {
+            let dir = s.dir.clone();
+            Ok(s.files.keys().map(|f| PathBuf::from(format!("{dir}/{f}"))).collect())
+        } else {
+            Err(ioerr(io::ErrorKind::Other, "injected"))
+        }
+    }
+
+    fn remove_file(&self, path: &Path) -> io::Result<()> {
+        let mut s = lock(&self.0);
+        let (n, file) = s.name_of(path);
+        let o = s.outcome();
+        let res = if o == "ok" && s.files.contains_key(&file) { "ok" } else { "err" };
+        s.log.push(("remove".into(), n, 0, res.into()));
+        if res == "ok" {
+            s.files.remove(&file);
+            Ok(())
+        } else {
+            Err(ioerr(io::ErrorKind::Other, "injected or missing"))
+        }
+    }
+
+    fn open_new(&self, path: &Path) -> io::Result<Box<dyn VerifFile + Send + Sync>> {
+        let mut s = lock(&self.0);
+        let (n, file) = s.name_of(path);
+        let o = s.outcome();
+        let res = if o == "ok" && !s.files.contains_key(&file) { "ok" } else { "err" };
+        s.log.push(("opennew".into(), n, 0, res.into()));
+        if res == "ok" {
+            s.files.insert(file.clone(), MemFile::default());
+            Ok(Box::new(MemHandle { fs: self.0.clone(), file, n }))
+        } else {
+            Err(ioerr(io::ErrorKind::AlreadyExists, "injected or exists"))
+        }
+    }
+
+    fn open_existing(&self, path: &Path) -> io::Result<Box<dyn VerifFile + Send + Sync>> {
+        let mut s = lock(&self.0);
+        let (n, file) = s.name_of(path);
+        let o = s.outcome();
+        let res = if o == "ok" && s.files.contains_key(&file) { "ok" } else { "err" };
+        s.log.push(("openex".into(), n, 0, res.into()));
+        if res == "ok" {
+            Ok(Box::new(MemHandle { fs: self.0.clone(), file, n }))
+        } else {
+            Err(ioerr(io::ErrorKind::NotFound, "injected or missing"))
+        }
+    }
+}
+
+impl VerifFile for MemHandle {
+    fn write(&mut self, buf: &[u8]) -> io::Result<usize> {
+        let mut s = lock(&self.fs);
+        if s.pending_err {
+            // second half of a short write: part of the same specification-level call
+            s.pending_err = false;
+            return Err(ioerr(io::ErrorKind::Other, "injected after short write"));
+        }
+        let o = s.outcome();
+        let tok = token_of_buf(buf);
+        let res = match o.as_str() {
+            "ok" => "ok",
+            "short" if buf.len() > 1 => "short",
+            _ => "err",
+        };
+        s.log.push(("write".into(), self.n, tok, res.into()));
+        let file = self.file.clone();
+        match res {
+            "ok" => {
+                if let Some(f) = s.files.get_mut(&file) {
+                    f.unsynced.push(buf.to_vec());
+                }
+                Ok(buf.len())
+            }
+            "short" => {
+                if let Some(f) = s.files.get_mut(&file) {
+                    f.unsynced.push(buf[..1].to_vec());
+                }
+                s.pending_err = true;
+                Ok(1)
+            }
+            _ => Err(ioerr(io::ErrorKind::Other, "injected")),
+        }
+    }
+
+    fn flush(&mut self) -> io::Result<()> {
+        let mut s = lock(&self.fs);
+        let o = s.outcome();
+        let res = if o == "ok" { "ok" } else { "err" };
+        s.log.push(("flush".into(), self.n, 0, res.into()));
+        if res == "ok" { Ok(()) } else { Err(ioerr(io::ErrorKind::Other, "injected")) }
+    }
+
+    fn len(&self) -> io::Result<usize> {
+        let mut s = lock(&self.fs);
+        let o = s.outcome();
+        let res = if o == "ok" { "ok" } else { "err" };
+        s.log.push(("len".into(), self.n, 0, res.into()));
+        if res == "ok" {
+            Ok(s.files.get(&self.file).map(|f| f.synced.len() + f.unsynced.iter().map(|c| c.len()).sum::<usize>()).unwrap_or(0))
+        } else {
+            Err(ioerr(io::ErrorKind::Other, "injected"))
+        }
+    }
+
+    fn sync_all(&mut self) -> io::Result<()> {
+        let mut s = lock(&self.fs);
+        let o = s.outcome();
+        let res = if o == "ok" { "ok" } else { "err" };
+        s.log.push(("sync".into(), self.n, 0, res.into()));
+        if res == "ok" {
+            let file = self.file.clone();
+            if let Some(f) = s.files.get_mut(&file) {
+                let chunks = std::mem::take(&mut f.unsynced);
+                for c in chunks {
+                    f.synced.extend_from_slice(&c);
+                }
+            }
+            Ok(())
+        } else {
+            Err(ioerr(io::ErrorKind::Other, "injected"))
+        }
+    }
+}
+
+// ------------------------------------------------------------------------------------------
+// clock and rng
+
+#[derive(Clone)]
+struct ScriptClock(Arc<Mutex<u64>>);
+impl emit::Clock for ScriptClock {
+    fn now(&self) -> Option<emit::Timestamp> {
+        let ms = *self.0.lock().unwrap_or_else(|e| e.into_inner());
+        emit::Timestamp::from_unix(std::time::Duration::from_millis(ms))
+    }
+}
+
+#[derive(Clone)]
+struct ScriptRng(Arc<Mutex<u32>>);
+impl emit::Rng for ScriptRng {
+    fn fill<A: AsMut<[u8]>>(&self, mut arr: A) -> Option<A> {
+        let v = *self.0.lock().unwrap_or_else(|e| e.into_inner()) as u64;
+        // upper half set: the id must come from the low 32 bits only
+        let bytes = (v | 0xdead_beef_0000_0000).to_le_bytes();
+        for (i, b) in arr.as_mut().iter_mut().enumerate() {
+            *b = bytes[i % 8];
+        }
+        Some(arr)
+    }
+}
+
+// ------------------------------------------------------------------------------------------
+// one case under one lexical configuration
+
+pub struct RunResult {
+    /// first difference from the specification's prediction, if any
+    pub diff: Option<Value>,
+    /// the recorded trace (level-A events, without the reset line)
+    pub trace: Vec<Value>,
+    pub calls: u64,
+}
+
+fn calls_json(log: &[(String, i64, i64, String)]) -> Vec<Value> {
+    log.iter().map(|(op, n, tok, res)| json!({"ev": "call", "op": op, "n": n, "tok": tok, "res": res})).collect()
+}
+
+pub fn run_case(case: &Value, lex: &Lex) -> RunResult {
+    let max_files = case["maxFiles"].as_u64().unwrap() as usize;
+    let max_size = case["maxSize"].as_u64().unwrap() as usize;
+    let reuse = case["reuse"].as_bool().unwrap();
+    let state = Arc::new(Mutex::new(FsState { names: lex.table(), dir: lex.dir.to_string(), ..Default::default() }));
+    {
+        let mut s = lock(&state);
+        for f in &lex.foreign {
+            s.files.insert(f.clone(), MemFile { synced: format!("foreign {f}\n").into_bytes(), unsynced: vec![], entry_synced: true });
+        }
+    }
+    let fs = MemFs(state.clone());
+    let clock = ScriptClock(Arc::new(Mutex::new(0)));
+    let rng = ScriptRng(Arc::new(Mutex::new(0)));
+    let mut worker: Option<VerifWorker> = None;
+    let mut pending: Option<VerifBatch> = None;
+    let mut trace: Vec<Value> = Vec::new();
+    let mut diff: Option<Value> = None;
+    let mut calls = 0u64;
+    let mut next_default_rid = 9i64;
+
+    let hist = case["hist"].as_array().unwrap();
+    for (step, op) in hist.iter().enumerate() {
+        match op["op"].as_str().unwrap() {
+            "batch" => {
+                let evs: Vec<i64> = op["evs"].as_array().unwrap().iter().map(|e| e.as_i64().unwrap()).collect();
+                let exp_calls = op["calls"].as_array().unwrap();
+                let exp_res = op["res"].as_str().unwrap();
+                let (p, ms) = (op["p"].as_i64().unwrap(), op["ms"].as_i64().unwrap());
+                *clock.0.lock().unwrap() = lex.unix_millis(p, ms);
+                // the random id the environment draws: the one of the predicted creation
+                let rid = exp_calls.iter().find(|c| c[0] == "opennew").map(|c| c[1].as_i64().unwrap() % 10).unwrap_or_else(|| {
+                    next_default_rid -= 1;
+                    (next_default_rid + 1).max(0)
+                });
+                *rng.0.lock().unwrap() = id_of_rid(rid);
+                let batch = match pending.take() {
+                    Some(b) => b,
+                    None => {
+                        let mut b = VerifBatch::new();
+                        let ph = op["ph"].as_u64().unwrap() as usize;
+                        if ph > 0 {
+                            // an overflow truncation of the channel before these events
+                            b.push(vec![b'#'; ph]);
+                            b.clear();
+                        }
+                        for e in &evs {
+                            b.push(ev_bytes(*e));
+                        }
+                        b
+                    }
+                };
+                let real_evs: Vec<i64> = batch.remaining().iter().map(|b| token_of_buf(b)).collect();
+                let bytes: usize = batch.remaining().iter().map(|b| b.len()).sum();
+                trace.push(json!({"ev": "begin", "evs": real_evs, "bytes": bytes, "p": p, "ms": ms}));
+                {
+                    let mut s = lock(&state);
+                    s.script = exp_calls.iter().map(|c| c[3].as_str().unwrap().to_string()).collect();
+                    s.crash_at = if exp_res == "crash" { Some(exp_calls.len()) } else { None };
+                    s.ncalls = 0;
+                    s.log.clear();
+                    s.pending_err = false;
+                    s.crashed = false;
+                }
+                if worker.is_none() {
+                    worker = Some(VerifWorker::new(
+                        fs.clone(),
+                        clock.clone(),
+                        rng.clone(),
+                        lex.dir.to_string(),
+                        lex.prefix.to_string(),
+                        lex.ext.to_string(),
+                        lex.roll,
+                        reuse,
+                        max_files,
+                        max_size,
+                        b"\n",
+                    ));
+                }
+                let w = worker.as_mut().unwrap();
+                let r = catch_outcome(|| w.on_batch(batch));
+                let (log, crashed) = {
+                    let s = lock(&state);
+                    (s.log.clone(), s.crashed)
+                };
+                calls += log.len() as u64;
+                trace.extend(calls_json(&log));
+                // what happened
+                let (got_res, got_rest): (&str, Vec<i64>) = match r {
+                    Ok(VerifOutcome::Ok) => ("ok", vec![]),
+                    Ok(VerifOutcome::NoRetry) => ("noretry", vec![]),
+                    Ok(VerifOutcome::Retry(b)) => {
+                        let rest: Vec<i64> = b.remaining().iter().map(|x| token_of_buf(x)).collect();
+                        if !rest.is_empty() {
+                            pending = Some(b);
+                        }
+                        ("retry", rest)
+                    }
+                    Err(_) if crashed => ("crash", vec![]),
+                    Err(_) => ("panic", vec![]),
+                };
+                if got_res == "crash" || got_res == "panic" {
+                    // the worker is gone
+                    worker = None;
+                    pending = None;
+                }
+                if got_res != "crash" {
+                    trace.push(json!({"ev": "end", "res": got_res, "rest": got_rest}));
+                }
+                // compare with the prediction
+                let exp_log: Vec<(String, i64, i64, String)> = exp_calls
+                    .iter()
+                    .map(|c| (c[0].as_str().unwrap().to_string(), c[1].as_i64().unwrap(), c[2].as_i64().unwrap(), c[3].as_str().unwrap().to_string()))
+                    .collect();
+                let exp_rest: Vec<i64> = op["rest"].as_array().unwrap().iter().map(|e| e.as_i64().unwrap()).collect();
+                if (log != exp_log || got_res != exp_res || got_rest != exp_rest) && diff.is_none() {
+                    let at = log.iter().zip(exp_log.iter()).position(|(a, b)| a != b).unwrap_or(log.len().min(exp_log.len()));
+                    diff = Some(json!({
+                        "step": step, "first_call_differing": at,
+                        "expected_call": exp_log.get(at).map(|c| json!([c.0, c.1, c.2, c.3])),
+                        "actual_call": log.get(at).map(|c| json!([c.0, c.1, c.2, c.3])),
+                        "expected_result": exp_res, "actual_result": got_res,
+                        "expected_rest": exp_rest, "actual_rest": got_rest,
+                        "actual_calls": log.iter().map(|c| json!([c.0, lex.name_text_or(c.1), c.2, c.3])).collect::<Vec<_>>(),
+                    }));
+                }
+                if got_res != exp_res || got_rest != exp_rest {
+                    // the environment of the specification no longer fits what the code
+                    // returned: stop, TLC decides the trace so far.  (When only the calls
+                    // differ the scenario goes on, so that later consequences are seen.)
+                    break;
+                }
+            }
+            "crash" => {
+                let c = op["c"].as_array().unwrap();
+                let mut s = lock(&state);
+                let names = s.names.clone();
+                let mut gone = Vec::new();
+                for (fname, f) in s.files.iter_mut() {
+                    let n = names.get(fname).copied().unwrap_or(UNKNOWN);
+                    let choice = c.iter().find(|r| r["n"].as_i64() == Some(n));
+                    let (k, t, v) = match choice {
+                        Some(r) => (r["k"].as_u64().unwrap() as usize, r["t"].as_bool().unwrap(), r["v"].as_bool().unwrap()),
+                        None => (0, false, false),
+                    };
+                    if v && !f.entry_synced {
+                        gone.push(fname.clone());
+                        continue;
+                    }
+                    let chunks = std::mem::take(&mut f.unsynced);
+                    let k = k.min(chunks.len());
+                    for (i, ch) in chunks.iter().take(k).enumerate() {
+                        if t && i + 1 == k && ch.len() > 1 {
+                            f.synced.extend_from_slice(&ch[..1]);
+                        } else {
+                            f.synced.extend_from_slice(ch);
+                        }
+                    }
+                    f.entry_synced = true;
+                }
+                for g in gone {
+                    s.files.remove(&g);
+                }
+                drop(s);
+                worker = None;
+                pending = None;
+                trace.push(json!({"ev": "crash", "c": c}));
+            }
+            "restart" => {
+                worker = None;
+                pending = None;
+                trace.push(json!({"ev": "restart"}));
+            }
+            other => tool_error(&format!("unknown op {other}")),
+        }
+    }
+    drop(worker);
+    // final directory
+    if diff.is_none() {
+        let s = lock(&state);
+        let mut got: Vec<Value> = Vec::new();
+        for (fname, f) in s.files.iter() {
+            let n = s.names.get(fname).copied().unwrap_or(UNKNOWN);
+            if n < 0 && n != UNKNOWN {
+                // a foreign file: must be untouched
+                let want = format!("foreign {fname}\n").into_bytes();
+                if f.synced != want || !f.unsynced.is_empty() {
+                    diff = Some(json!({"foreign_file_modified": fname, "content": String::from_utf8_lossy(&f.synced)}));
+                }
+                continue;
+            }
+            let uns: Vec<u8> = f.unsynced.iter().flatten().copied().collect();
+            got.push(json!({"n": n, "syn": tokens_of(&f.synced), "uns": tokens_of(&uns), "ent": f.entry_synced}));
+        }
+        let missing_foreign: Vec<&String> = lex.foreign.iter().filter(|f| !s.files.contains_key(*f)).collect();
+        if !missing_foreign.is_empty() {
+            diff = Some(json!({"foreign_files_deleted": missing_foreign}));
+        }
+        let mut want: Vec<Value> = case["files"].as_array().unwrap().clone();
+        let key = |v: &Value| v["n"].as_i64().unwrap();
+        got.sort_by_key(key);
+        want.sort_by_key(key);
+        if diff.is_none() && got != want {
+            diff = Some(json!({"final_directory": {"expected": want, "actual": got}}));
+        }
+    }
+    RunResult { diff, trace, calls }
+}
+
+impl Lex {
+    fn name_text_or(&self, n: i64) -> Value {
+        if n == NONE {
+            json!(null)
+        } else if n == UNKNOWN {
+            json!("?")
+        } else {
+            json!(self.name_text(n))
+        }
+    }
+}
+
+fn catch_outcome<R>(f: impl FnOnce() -> R) -> Result<R, ()> {
+    std::panic::catch_unwind(std::panic::AssertUnwindSafe(f)).map_err(|_| ())
+}
+
+// ------------------------------------------------------------------------------------------
+// driver shared by the c10 / c11 binaries
+
+/// args: cases.ndjson report.json divergent.ndjson sample.ndjson sample_every max_detailed
+pub fn main_with(prop: &str) {
+    use std::io::{BufRead, Write};
+    let args: Vec<String> = std::env::args().collect();
+    if args.len() < 7 {
+        tool_error("usage: <cases> <report> <divergent-traces> <sample-traces> <sample-every> <max-detailed>");
+    }
+    let (cases, out, div_path, sample_path) = (args[1].clone(), &args[2], &args[3], &args[4]);
+    let sample_every: usize = args[5].parse().unwrap_or(1000);
+    let max_detail: usize = args[6].parse().unwrap_or(400);
+    quiet_panics();
+    let lexes = lexes();
+    let nlex = lexes.len();
+    const SPLIT: usize = 3;
+
+    struct Part {
+        cases: u64,
+        runs: u64,
+        calls: u64,
+        ndiv: u64,
+        nsample: usize,
+        detailed: Vec<Value>,
+        light: Vec<Value>,
+        index: Vec<Value>,
+        div_file: String,
+        sample_file: String,
+    }
+
+    // one thread per (lexical configuration, share of the lines); the scenario id of a run
+    // is line * nlex + lex, so the output does not depend on the scheduling
+    let parts: Vec<Part> = std::thread::scope(|sc| {
+        let mut hs = Vec::new();
+        for t in 0..nlex * SPLIT {
+            let (li, share) = (t % nlex, t / nlex);
+            let lex = lexes[li].clone();
+            let cases = cases.clone();
+            let div_file = format!("{div_path}.part{t}");
+            let sample_file = format!("{sample_path}.part{t}");
+            hs.push(sc.spawn(move || {
+                let mut part = Part { cases: 0, runs: 0, calls: 0, ndiv: 0, nsample: 0, detailed: vec![], light: vec![], index: vec![],
+                    div_file: div_file.clone(), sample_file: sample_file.clone() };
+                let mut div = io::BufWriter::new(std::fs::File::create(&div_file).unwrap());
+                let mut sample = io::BufWriter::new(std::fs::File::create(&sample_file).unwrap());
+                let file = std::fs::File::open(&cases).unwrap_or_else(|e| tool_error(&format!("open {cases}: {e}")));
+                let rd = io::BufReader::with_capacity(1 << 20, file);
+                for (i, text) in rd.lines().enumerate() {
+                    let line = i + 1;
+                    let text = text.unwrap_or_else(|e| tool_error(&format!("read {cases}: {e}")));
+                    if text.trim().is_empty() || line % SPLIT != share {
+                        continue;
+                    }
+                    let case: Value = serde_json::from_str(&text).unwrap_or_else(|e| tool_error(&format!("{cases}:{line}: bad json: {e}")));
+                    if li == 0 {
+                        part.cases += 1;
+                    }
+                    let r = run_case(&case, &lex);
+                    part.runs += 1;
+                    part.calls += r.calls;
+                    let sid = line * nlex + li;
+                    let reset = json!({"ev": "reset", "sid": sid, "maxFiles": case["maxFiles"], "maxSize": case["maxSize"]});
+                    if let Some(d) = r.diff {
+                        // every differing run is recorded and decided by TLC at level A; the
+                        // bulky details are kept for the first ones only
+                        part.ndiv += 1;
+                        writeln!(div, "{}", reset).unwrap();
+                        for e in &r.trace {
+                            writeln!(div, "{}", e).unwrap();
+                        }
+                        if part.detailed.len() < max_detail / (nlex * SPLIT) + 1 {
+                            part.detailed.push(json!({"sid": sid, "line": line, "lex": lex.label, "detail": d, "trace": r.trace}));
+                        } else {
+                            part.light.push(json!([sid, line, li]));
+                        }
+                    } else if (line + li) % sample_every == 0 {
+                        part.nsample += 1;
+                        writeln!(sample, "{}", reset).unwrap();
+                        for e in &r.trace {
+                            writeln!(sample, "{}", e).unwrap();
+                        }
+                        part.index.push(json!({"sid": sid, "line": line, "lex": lex.label}));
+                    }
+                }
+                div.flush().unwrap();
+                sample.flush().unwrap();
+                part
+            }));
+        }
+        hs.into_iter().map(|h| h.join().unwrap_or_else(|_| tool_error("harness thread panicked"))).collect()
+    });
+
+    let mut rep = Report::new();
+    rep.max_mismatches = usize::MAX;
+    let mut div = io::BufWriter::new(std::fs::File::create(div_path).unwrap());
+    let mut sample = io::BufWriter::new(std::fs::File::create(sample_path).unwrap());
+    let (mut runs, mut ndiv, mut nsample) = (0u64, 0u64, 0usize);
+    let mut light: Vec<Value> = Vec::new();
+    let mut index: Vec<Value> = Vec::new();
+    for mut p in parts {
+        rep.cases += p.cases;
+        rep.checks += p.calls;
+        runs += p.runs;
+        ndiv += p.ndiv;
+        nsample += p.nsample;
+        rep.mismatches.append(&mut p.detailed);
+        light.append(&mut p.light);
+        index.append(&mut p.index);
+        io::copy(&mut std::fs::File::open(&p.div_file).unwrap(), &mut div).unwrap();
+        io::copy(&mut std::fs::File::open(&p.sample_file).unwrap(), &mut sample).unwrap();
+        let _ = std::fs::remove_file(&p.div_file);
+        let _ = std::fs::remove_file(&p.sample_file);
+    }
+    rep.total_mismatches = ndiv;
+    writeln!(div, "{}", json!({"ev": "fin"})).unwrap();
+    writeln!(sample, "{}", json!({"ev": "fin"})).unwrap();
+    rep.extra.insert("prop".into(), json!(prop));
+    rep.extra.insert("runs".into(), json!(runs));
+    rep.extra.insert("divergent_recorded".into(), json!(ndiv));
+    rep.extra.insert("sampled".into(), json!(nsample));
+    rep.extra.insert("more_divergent".into(), json!(light));
+    rep.extra.insert("sample_index".into(), json!(index));
+    rep.extra.insert("lexes".into(), json!(lexes.iter().map(|l| l.label).collect::<Vec<_>>()));
+    rep.write(out);
+}
